@@ -48,21 +48,20 @@ ZeroBox == << 0, 0, 0, 0, 0, 0, 0, 0 >>
 NullShapeV == [t |-> 0, parts |-> << >>, kinds |-> << >>, box |-> ZeroBox]
 
 AllPoints(s) == Concat(s.parts)
-RECURSIVE PartLens(_)
-PartLens(ps) == IF ps = << >> THEN << >> ELSE << Len(Head(ps)) >> \o PartLens(Tail(ps))
+PartLens(ps) == [i \in 1..Len(ps) |-> Len(ps[i])]
 NumPoints(s) == SumSeq(PartLens(s.parts))
 
 (***************************************************************************)
 (* Extremes by rank (C05).  NaN is outside the domain of the box claims.   *)
 (***************************************************************************)
-RECURSIVE MinOf(_, _, _)
-MinOf(ps, d, acc) == IF ps = << >> THEN acc
-                     ELSE MinOf(Tail(ps), d, Min2(acc, Head(ps)[d]))
-RECURSIVE MaxOf(_, _, _)
-MaxOf(ps, d, acc) == IF ps = << >> THEN acc
-                     ELSE MaxOf(Tail(ps), d, Max2(acc, Head(ps)[d]))
-MinD(ps, d) == MinOf(Tail(ps), d, Head(ps)[d])
-MaxD(ps, d) == MaxOf(Tail(ps), d, Head(ps)[d])
+RECURSIVE MinR(_, _, _, _)
+MinR(ps, d, lo, hi) == IF hi = lo THEN ps[lo][d]
+                       ELSE LET mid == (lo + hi) \div 2 IN Min2(MinR(ps, d, lo, mid), MinR(ps, d, mid + 1, hi))
+RECURSIVE MaxR(_, _, _, _)
+MaxR(ps, d, lo, hi) == IF hi = lo THEN ps[lo][d]
+                       ELSE LET mid == (lo + hi) \div 2 IN Max2(MaxR(ps, d, lo, mid), MaxR(ps, d, mid + 1, hi))
+MinD(ps, d) == MinR(ps, d, 1, Len(ps))
+MaxD(ps, d) == MaxR(ps, d, 1, Len(ps))
 
 \* the exact box of a multi-vertex shape with at least one vertex
 BoxOfPoints(t, ps) ==
@@ -177,29 +176,35 @@ Good(s, mAbs) ==
 
 \* 32-bit fields n at offsets p, p+4, ...
 RECURSIVE RdInts(_, _, _)
-RdInts(b, p, n) == IF n <= 0 THEN << >> ELSE << RdLE(b, p) >> \o RdInts(b, p + 4, n - 1)
+RdInts(b, p, n) == IF n <= 0 THEN << >>
+                   ELSE IF n = 1 THEN << RdLE(b, p) >>
+                   ELSE LET h == n \div 2 IN RdInts(b, p, h) \o RdInts(b, p + 4 * h, n - h)
 
-\* points i..n of a block: xy at pxy, z at pz (or 0), m at pm (or 0); norm = apply NormM
+\* points i..n-1 of a block: xy at pxy, z at pz (or -1), m at pm (-1: none, -2: absent => ND); norm = apply NormM
+RdPoint(b, pxy, pz, pm, i, norm) ==
+    << RdX(b, pxy + 16 * i), RdX(b, pxy + 16 * i + 8),
+       IF pz >= 0 THEN RdZ(b, pz + 8 * i) ELSE 0,
+       IF pm = -1 THEN 0
+       ELSE IF pm = -2 THEN ND
+       ELSE IF norm THEN NormM(RdZ(b, pm + 8 * i)) ELSE RdZ(b, pm + 8 * i) >>
 RECURSIVE RdPoints(_, _, _, _, _, _, _)
 RdPoints(b, pxy, pz, pm, i, n, norm) ==
     IF i >= n THEN << >>
-    ELSE << << RdX(b, pxy + 16 * i), RdX(b, pxy + 16 * i + 8),
-               IF pz >= 0 THEN RdZ(b, pz + 8 * i) ELSE 0,
-               IF pm = -1 THEN 0
-               ELSE IF pm = -2 THEN ND
-               ELSE IF norm THEN NormM(RdZ(b, pm + 8 * i)) ELSE RdZ(b, pm + 8 * i) >> >>
-         \o RdPoints(b, pxy, pz, pm, i + 1, n, norm)
+    ELSE IF n = i + 1 THEN << RdPoint(b, pxy, pz, pm, i, norm) >>
+    ELSE LET mid == (i + n) \div 2
+         IN  RdPoints(b, pxy, pz, pm, i, mid, norm) \o RdPoints(b, pxy, pz, pm, mid, n, norm)
 
-\* split pts according to offsets offs (ascending, offs[1] = 0) and total n
-RECURSIVE SplitParts(_, _, _, _)
-SplitParts(pts, offs, i, n) ==
-    IF i > Len(offs) THEN << >>
-    ELSE LET lo == offs[i]
-             hi == IF i = Len(offs) THEN n ELSE offs[i + 1]
-         IN  << SubSeq(pts, lo + 1, hi) >> \o SplitParts(pts, offs, i + 1, n)
+\* split pts according to offsets offs (ascending, offs[1] = 0) and total n: parts lo..hi
+RECURSIVE SplitR(_, _, _, _, _)
+SplitR(pts, offs, lo, hi, n) ==
+    IF hi < lo THEN << >>
+    ELSE IF hi = lo THEN << SubSeq(pts, offs[lo] + 1, IF lo = Len(offs) THEN n ELSE offs[lo + 1]) >>
+    ELSE LET mid == (lo + hi) \div 2 IN SplitR(pts, offs, lo, mid, n) \o SplitR(pts, offs, mid + 1, hi, n)
+SplitParts(pts, offs, i, n) == SplitR(pts, offs, i, Len(offs), n)
 
 OffsetsConformant(offs, nq) ==
     /\ (Len(offs) > 0 => offs[1] = 0)
+    /\ (Len(offs) = 0 => nq = 0)          \* every point belongs to a part
     /\ \A i \in 1..Len(offs) : offs[i] >= 0 /\ offs[i] <= nq
     /\ \A i \in 1..(Len(offs) - 1) : offs[i] <= offs[i + 1]
 
@@ -211,11 +216,12 @@ OffsetsConformant(offs, nq) ==
 (* of the trace), which is what "coordinates for which the shoelace sum is *)
 (* exact" means in the properties.                                         *)
 (***************************************************************************)
-RECURSIVE Area2From(_, _)
-Area2From(ps, i) ==
-    IF i >= Len(ps) THEN 0
-    ELSE (ps[i + 1][1] - ps[i][1]) * (ps[i + 1][2] + ps[i][2]) + Area2From(ps, i + 1)
-Area2(ps) == Area2From(ps, 1)
+RECURSIVE Area2R(_, _, _)
+Area2R(ps, lo, hi) ==      \* edges lo .. hi-1 (edge i joins vertex i and i+1)
+    IF hi <= lo THEN 0
+    ELSE IF hi = lo + 1 THEN (ps[lo + 1][1] - ps[lo][1]) * (ps[lo + 1][2] + ps[lo][2])
+    ELSE LET mid == (lo + hi) \div 2 IN Area2R(ps, lo, mid) + Area2R(ps, mid, hi)
+Area2(ps) == Area2R(ps, 1, Len(ps))
 \* the role a reader derives from the vertex order (any role when the area is 0)
 RoleOK(ps, role) == LET a == Area2(ps) IN (a > 0 => role = Outer) /\ (a < 0 => role = Inner)
 
@@ -249,8 +255,7 @@ SameGeometry(o, g, exact) ==
           \A i \in 1..Len(o.parts) : RoleOK(o.parts[i], o.kinds[i])
 
 \* C05: the header box hb of a finalized file of type t holding shapes S
-RECURSIVE AllPointsOf(_)
-AllPointsOf(S) == IF S = << >> THEN << >> ELSE AllPoints(Head(S)) \o AllPointsOf(Tail(S))
+AllPointsOf(S) == Concat([i \in 1..Len(S) |-> AllPoints(S[i])])
 HeaderBoxOK(t, S, hb) ==
     LET ps == AllPointsOf(S)
         realM == \A i \in 1..Len(ps) : ~IsNoDataV(ps[i][4])
